@@ -75,6 +75,27 @@ def engine_b_part(prop, tier):
     return cov, viol, inc, assume
 
 
+def serde_tv(cov, inc, assume):
+    """Translation validation of the serde data-model driver against real serde_json (native)."""
+    import re
+    tdir = os.path.join(runner.WORK, "target-native")
+    cmd = ["cargo", "build", "--offline", "--release", "--features", "native-tv", "--bin", "tvserde", "--target-dir", tdir]
+    rc, out, _ = runner.sh(cmd, cwd=runner.HARN, timeout=1200, limits=False)
+    exe = os.path.join(tdir, "release", "tvserde")
+    if rc != 0 or not os.path.exists(exe):
+        return cov, inc + ["serde driver validation binary failed to build"], assume
+    rc, out, wall = runner.sh([exe], timeout=600, limits=False)
+    m = re.search(r"TV documents=(\d+) comparisons=(\d+) mismatches=(\d+)", out)
+    cov = dict(cov)
+    cov["serde_driver_validation"] = {
+        "what": "every corpus document is deserialised by the data-model driver (3 key-delivery modes) and by real serde_json (from_str, from_slice, from_reader, from_value); outcomes (Ok value / Err / panic) must be identical",
+        "documents": int(m.group(1)) if m else 0, "comparisons": int(m.group(2)) if m else 0, "mismatches": int(m.group(3)) if m else -1, "seconds": round(wall, 1)}
+    if not m or int(m.group(3)) != 0:
+        inc = inc + ["the serde data-model driver disagrees with real serde_json on the validation corpus: " + out[-400:].replace("\n", " | ")]
+    assume = assume + ["the in-harness serde data-model driver stands in for serde_json's text layer (validated natively against serde_json on a generated corpus on every run)"]
+    return cov, inc, assume
+
+
 def main(argv):
     if not argv:
         print(__doc__)
@@ -101,6 +122,8 @@ def main(argv):
     extra_cov, extra_viol, extra_inc, extra_assume = {}, [], [], []
     if prop in ENGINE_B_PROPS and not only:
         extra_cov, extra_viol, extra_inc, extra_assume = engine_b_part(prop, tier)
+    if prop in ("C18", "C19") and not only:
+        extra_cov, extra_inc, extra_assume = serde_tv(extra_cov, extra_inc, extra_assume)
     rc = runner.summarize(prop, tier, seed, res, wall, extra_cov=extra_cov, extra_assume=extra_assume, t0=t0, extra_viol=extra_viol, extra_inconcl=extra_inc)
     n = len(res)
     holds = sum(1 for r in res.values() if r.status == "holds")
